@@ -44,7 +44,9 @@ PUNCT_KEYS = ["q r", "foo-bar", "a.b", "it's", 'say "hi"', "back\\slash", "path/
               "first name", "e-mail", "content-type", "X-Request-Id", "a\"b", "c\\d", "tab\there", "per cent%",
               "{curly}", "[square]", "semi;colon", "co:lon", "qu?estion", "ex!clam", "a+b", "a=b", "hash#tag",
               "new\nline", " padded ", "trail ", " lead", "pipe|d", "til~de", "back`tick", "ca^ret", "am&p", "st*ar", "(paren)", "a,b", "<tag>",
-              "line\u2028sep", "nel\x85char", "a\\nb", "C:\\temp\\new", "end\\", "x\\ty", "u\\x41z", "quote\\\"d"]
+              "line\u2028sep", "nel\x85char", "a\\nb", "C:\\temp\\new", "end\\", "x\\ty", "u\\x41z", "quote\\\"d",
+              # dropped leading punctuation in front of a word whose capitalised form is a keyword / an imported name
+              "$union", "#literal", "@none", "$true", "-list", "$optional", "@field", ".any"]
 NONASCII_KEYS = ["é", "ü", "ñame", "straße", "øre", "Æther", "café", "naïve", "Ключ", "значение", "имя",
                  "Ελληνικά", "όνομα", "Հայերեն", "ÀÉÎ", "łódź", "čeština", "šđžć", "ärger", "Größe",
                  "données", "año", "fianç", "Über", "пользователь", "список", "αβγ", "Ωmega",
